@@ -1,16 +1,22 @@
 #!/bin/sh
-# Build the framework from files on disk only (offline): translator output, all Coq files, extraction.
+# Build the framework from files on disk only (offline): translator output, the Coq development of every
+# claimed property (full .vo build), extraction, the ASan build of /repo's working tree and the drivers.
 set -e
 cd "$(dirname "$0")"
 python3 - <<'PY'
-import sys, os
+import json, sys
 sys.path.insert(0, "tools")
 import vlib
+ids = [c["property_id"] for c in json.load(open("MANIFEST.json"))["checks"]]
 vlib.coq_prepare()
-ok, out = vlib.coq_make(["all"], keep_going=True, timeout=7200)
-print(out[-3000:])
+targets = []
+for i in ids:
+    targets += ["Properties/Properties_%s.vo" % i, "Extract/Extract_%s.vo" % i]
+ok, out = vlib.coq_make(targets, keep_going=True, timeout=7200)
+print(out[-2500:])
 try:
     vlib.build_impl()
+    vlib.build_simworld()
 except vlib.BuildError as e:
     print("warning: implementation build failed:", e)
 sys.exit(0 if ok else 1)
